@@ -17,9 +17,12 @@ class C06Monitor(object):
         temp = target.temp
         inner = wrap.inner
         name = type(inner).__name__
-        base = target.value  # refreshes the tree (legal read)
+        from .. import taps
+
+        src = taps.entry_view(sim, target)  # (never refreshes the live tree on behalf of the algo under test)
+        base = src.value
         cur = {}
-        for cn, c in target.children.items():
+        for cn, c in src.children.items():
             cur[cn] = (c.value, c.weight, getattr(c, "position", None))
         weights = None
         if name == "Rebalance":
@@ -46,7 +49,7 @@ class C06Monitor(object):
         # internal fractions of sub-strategy targets (must be unchanged by a costless fractional transfer)
         internal = {}
         for cn in weights:
-            c = target.children.get(cn)
+            c = src.children.get(cn)
             if c is not None and hasattr(c, "capital") and abs(c.value) > 0:
                 internal[cn] = {g: gc.value / c.value for g, gc in c.children.items()}
                 internal[cn]["__cash__"] = c.capital / c.value
